@@ -464,11 +464,11 @@ def run(tier, seed):
     for (f, a), r in zip(jobs, rs):
         for d in r.get():
             run.add_verdicts([report.Verdict(d["name"], d["status"], "sympy-%s" % sp.__version__, d["seconds"], "post", N2P, d["detail"])])
-    ev, cf = geometry_bounded(seed, 3 if tier == "quick" else 60)
+    ev, cf = report.guarded(run, geometry_bounded, seed, 3 if tier == "quick" else 60)
     run.bounded.append(dict(name="float: chains of 3 random rect/cyl/sph systems, 12 grids incl. special angles (0/90/180/270/45/135 deg), q-set grid and scalar point: locations, "
                                  "coordinate queries in every system, rbgeom_uset vs E^T[I,-(p-ref)x;0,I], rbmove", evaluations=ev, failures=0 if cf is None else 1,
                             label="bounded (never counted as proved)"))
-    ev2, cf2 = rbe3_bounded(seed, 6 if tier == "quick" else 100)
+    ev2, cf2 = report.guarded(run, rbe3_bounded, seed, 6 if tier == "quick" else 100)
     run.bounded.append(dict(name="float: formrbe3 reproduces rigid-body motion (random grids, weights and DOF selections)", evaluations=ev2, failures=0 if cf2 is None else 1,
                             label="bounded (never counted as proved)"))
     failed = [v for v in run.verdicts if v.status == "failed"]
